@@ -513,7 +513,7 @@ def c20_p3(ctx):
         txt = expr_str(e)
         key = "%s:sent_file_size" % f.name
         # idiom 1: max(old, offset + len(data))
-        m = re.match(r"^Ord(?:>)?::max\(self\.sent_file_size, (?:\(AddWithOverflow\((\w+), \(Vec::len\(&(\w+)\) as u64\)\)\)\.0|Add\((\w+), \(Vec::len\(&(\w+)\) as u64\)\))\)$", txt)
+        m = re.match(r"^Ord(?:>)?::max\(self\.sent_file_size, (?:\(AddWithOverflow\((.+), \(Vec::len\(&(\w+)\) as u64\)\)\)\.0|Add\((.+), \(Vec::len\(&(\w+)\) as u64\)\))\)$", txt)
         good = False
         why = ""
         if m:
